@@ -13,6 +13,11 @@
 -/
 import RumaModel.Lemmas.HttpHeaders
 import RumaModel.Lemmas.RingCompat
+import RumaModel.Props.C10
+import RumaModel.Props.C11
+import RumaModel.Props.C13
+import RumaModel.Lemmas.EndpointNoPanic
+import RumaModel.Lemmas.EventSign
 namespace Ruma.Props.C17
 open Ruma Ruma.HttpHeaders Ruma.RingCompat
 
@@ -104,6 +109,40 @@ example : fromBytes [0x30, 8, 1, 2, 0xA1, 0x23, 0x03, 0x21, 7, 9]
   | .ok ⟨.inline, some [97, 34, 98]⟩ => true
   | _ => false)
 
+/-! ## Entry points modelled under other properties
+
+The models of C10, C11, C13, C16 and C03 have explicit panic outcomes at every index, slice, `unwrap`,
+`expect`, `assert!` and `unreachable!` of the code they mirror; their unreachability theorems are
+obligations of this property too (restated here so that they are re-checked with it). -/
+
+/-- Identifier entry points (C10's model): no identifier validator panics on any string. -/
+theorem identifiers_never_panic (x : Ids.Ext) (k : Spec.IdGrammar.Kind) (s : Str) (h : Ids.utf8Valid s = true) :
+    Ids.validate x k s ≠ .panic ∧ Ids.userIdValidateStrict x s ≠ .panic :=
+  ⟨C10.validate_never_panics x k s h, C10.validate_strict_never_panics x s h⟩
+
+/-- Matrix URI entry points (C11's model): parsing any byte string never panics. -/
+theorem matrix_uris_never_panic (U : MatrixUri.UrlParser) (V : MatrixUri.Validators) (s : Str) :
+    MatrixUri.parseTo V s ≠ .panic ∧ MatrixUri.parseUri U V s ≠ .panic :=
+  ⟨(C11.parse_never_panics U V s).1, (C11.parse_never_panics U V s).2.1⟩
+
+/-- Push ruleset edits (C13's model): no operation sequence from either start state panics. -/
+theorem ruleset_edits_never_panic (st : C13.Start) (ops : List Ruleset.Op) :
+    Ruleset.Outcome.panic ∉ (Ruleset.run st.state ops).2 := C13.trace_no_panic st ops
+
+/-- Endpoint URL construction (C16's model). -/
+theorem endpoint_url_never_panics (h : Endpoint.VersionHistory) (vs : List Spec.Endpoint.Version) (base query : Str)
+    (args : List Str) (hnew : Endpoint.newOk h = true)
+    (hslash : ∀ p ∈ Endpoint.allPaths h, p.head? = some 47)
+    (hlen : ∀ r, Endpoint.refPath h = some r → (Endpoint.pathArgNames r).length ≤ args.length) :
+    Endpoint.makeEndpointUrl h vs base args query ≠ .panic :=
+  Endpoint.makeEndpointUrl_no_panic' h vs base query args hnew hslash hlen
+
+/-- Event hashing and signing (C03's model): the `unwrap()` of `hash_and_sign_event` is unreachable. -/
+theorem hash_and_sign_never_panics (S : Sign.SigScheme) (sha256 : List Nat → List Nat) (entity : Str)
+    (kp : Sign.KeyPair) (e : Obj) (rr : Redact.Rules) :
+    (EventSign.hashAndSignEvent S sha256 entity kp e rr).1 ≠ .error .panic :=
+  EventSign.hashAndSign_no_panic S sha256 entity kp e rr
+
 #print axioms cd_param_loop_progress
 #print axioms cd_scanners_monotone
 #print axioms cd_parse_error_iff
@@ -112,4 +151,9 @@ example : fromBytes [0x30, 8, 1, 2, 0xA1, 0x23, 0x03, 0x21, 7, 9]
 #print axioms unescape_no_growth
 #print axioms ring_compat_no_panic
 #print axioms ring_compat_passthrough
+#print axioms identifiers_never_panic
+#print axioms matrix_uris_never_panic
+#print axioms ruleset_edits_never_panic
+#print axioms endpoint_url_never_panics
+#print axioms hash_and_sign_never_panics
 end Ruma.Props.C17
